@@ -39,6 +39,8 @@ const ldProgram = `
 (defun lit-pairs () '(("b" 2) ("a" 1)))
 (defun lit-long () '(9 8 7 6 5 4 3 2 1 0))
 (defun lit-quoted () '('(3 1 2) '(9 8)))
+(defmacro ld-def-lit (n) (quasiquote (defun (unquote n) () '(30 10 20))))
+(ld-def-lit lit-via-macro)
 (defun ld-all-literals () (list (lit-ints) (lit-nested) (lit-strs) (lit-pairs) (lit-long) (lit-quoted)))
 (defun ld-scramble (x d)
   (ignore-errors
@@ -65,6 +67,8 @@ const ldProgram = `
 var ldLiterals = []string{
 	"(lit-ints)", "(lit-nested)", "(lit-strs)", "(lit-pairs)", "(lit-long)", "(lit-quoted)",
 	"(cdr (lit-long))", "(rest (lit-ints))", "(slice 'list (lit-long) 2 6)", "(car (lit-nested))",
+	// a literal written inside a macro TEMPLATE: the function the expansion defines holds a rebuilt copy of it
+	"(lit-via-macro)",
 }
 
 // tracked runtime values (C11): global name and constructor
@@ -86,7 +90,63 @@ var ldOthers = []string{
 const ldCoreOthers = 15
 
 // tracked values used at arity >= 3 (indices into the tracked list: literals first, then the globals)
-var ldCoreTracked = []int{0, 1, 4, 6, 7, 8, 10, 11, 12}
+var ldCoreTracked = []int{0, 1, 4, 6, 7, 8, 10, 11, 12, 13}
+
+// forms: special operators, macros and lambda-list shapes through which a value can travel; {T} is the tracked value
+var ldForms = [][2]string{
+	{"form:qq-lone-splice", "(quasiquote ((unquote-splicing {T})))"},
+	{"form:qq-splice-after", "(quasiquote (1 (unquote-splicing {T})))"},
+	{"form:qq-splice-before", "(quasiquote ((unquote-splicing {T}) 2))"},
+	{"form:qq-two-splices", "(quasiquote ((unquote-splicing {T}) (unquote-splicing {T})))"},
+	{"form:qq-unquote", "(quasiquote (unquote {T}))"},
+	{"form:qq-unquote-in-list", "(quasiquote ((unquote {T})))"},
+	{"form:qq-nested-splice", "(quasiquote (a ((unquote-splicing {T}))))"},
+	{"form:qq-quoted-splice", "(quasiquote '((unquote-splicing {T})))"},
+	{"form:eval-qq", "(eval (quasiquote (quote (unquote {T}))))"},
+	{"form:let", "(let ((x {T})) x)"},
+	{"form:let*", "(let* ((x {T}) (y x)) y)"},
+	{"form:progn", "(progn 1 {T})"},
+	{"form:if", "(if true {T} ())"},
+	{"form:cond", "(cond (false 1) (:else {T}))"},
+	{"form:or", "(or () {T})"},
+	{"form:and", "(and true {T})"},
+	{"form:dotimes-result", "(dotimes (i 1 {T}) i)"},
+	{"form:thread-first", "(thread-first {T} (identity))"},
+	{"form:thread-last", "(thread-last {T} (identity))"},
+	{"form:thread-first-cdr", "(thread-first {T} (cdr) (identity))"},
+	{"form:lambda-id", "((lambda (x) x) {T})"},
+	{"form:lambda-rest", "((lambda (&rest xs) xs) {T})"},
+	{"form:lambda-rest-car", "(car ((lambda (&rest xs) xs) {T}))"},
+	{"form:lambda-optional", "((lambda (&optional a b) a) {T})"},
+	{"form:lambda-key", "((lambda (&key k) k) :k {T})"},
+	{"form:apply-rest", "(apply (lambda (&rest xs) xs) {T})"},
+	{"form:apply-req-rest", "(apply (lambda (a &rest xs) xs) 0 {T})"},
+	{"form:apply-list", "(apply list {T})"},
+	{"form:funcall-rest", "(funcall (lambda (&rest xs) (car xs)) {T})"},
+	{"form:map-rest", "(map 'list (lambda (&rest xs) xs) {T})"},
+	{"form:map-id", "(map 'list (lambda (x) x) (list {T} {T}))"},
+	{"form:foldl-acc", "(foldl (lambda (acc e) (cons e acc)) () (list {T}))"},
+	{"form:labels", "(labels ((f (x) x)) (f {T}))"},
+	{"form:flet-rest", "(flet ((f (&rest xs) xs)) (f {T}))"},
+	{"form:macro-arg", "(progn (defmacro ld-m (x) (quasiquote (quote (unquote x)))) (eval (list 'ld-m {T})))"},
+	{"form:macro-rest", "(progn (defmacro ld-mr (&rest xs) (quasiquote (quote (unquote xs)))) (eval (cons 'ld-mr {T})))"},
+	{"form:macroexpand", "(macroexpand (list 'quote {T}))"},
+	{"form:handler-data", "(handler-bind ((ld-c (lambda (c d) d))) (error 'ld-c {T}))"},
+	{"form:handler-rest-data", "(handler-bind ((ld-c (lambda (c &rest d) d))) (error 'ld-c {T} 1))"},
+	{"form:ignore-errors", "(ignore-errors {T})"},
+	{"form:set-get", "(progn (set 'ld-tmp {T}) ld-tmp)"},
+	{"form:set!", "(let ((x ())) (set! x {T}) x)"},
+	{"form:closure", "(funcall (let ((x {T})) (lambda () x)))"},
+	{"form:curry", "(funcall (curry-function identity {T}))"},
+	{"form:compose", "(funcall (compose identity identity) {T})"},
+	{"form:flip", "(funcall (flip (lambda (a b) b)) {T} 1)"},
+	{"form:unpack", "(unpack (lambda (&rest xs) xs) {T})"},
+	{"form:expr", "((expr %) {T})"},
+	{"form:expr-rest", "((expr %&rest) {T})"},
+	{"form:load-string", "(progn (set 'ld-tmp {T}) (load-string \"ld-tmp\"))"},
+	{"form:get-default", "(get-default (sorted-map) \"k\" {T})"},
+	{"form:new", "(progn (deftype ld-box (v) v) (user-data (new ld-box {T})))"},
+}
 
 type ldState struct {
 	env    *lisp.LEnv
@@ -223,7 +283,7 @@ func init() {
 				}
 				var bad []interface{}
 				calls := 0
-				counts := map[string]int{"literal": 0, "fingerprint": 0, "target": 0, "other": 0}
+				counts := map[string]int{"literal": 0, "macrolit": 0, "fingerprint": 0, "target": 0, "other": 0}
 				for _, n := range mxArities(c.formals) {
 					if n == 0 {
 						continue
@@ -298,6 +358,8 @@ func init() {
 							switch {
 							case strings.HasSuffix(what, "fingerprint"):
 								class = "fingerprint"
+							case strings.HasSuffix(what, "(lit-via-macro)"):
+								class = "macrolit"
 							case strings.Contains(what, "(lit-") || strings.HasSuffix(what, "literals"):
 								class = "literal"
 							case strings.HasSuffix(what, ": "+tracked[ti]):
@@ -323,6 +385,68 @@ func init() {
 					}
 				}
 				out.emit(J{"id": in.ID, "name": c.qname, "calls": calls, "counts": counts, "bad": bad})
+				out.flush()
+			}
+			// special operators, macros and lambda-list shapes
+			for fi, f := range ldForms {
+				if fi%in.Shards != in.Shard || (len(only) > 0 && !only[f[0]]) {
+					continue
+				}
+				var bad []interface{}
+				calls := 0
+				counts := map[string]int{"literal": 0, "macrolit": 0, "fingerprint": 0, "target": 0, "other": 0}
+				st, err := ldNew()
+				if err != nil {
+					fmt.Fprintln(os.Stderr, err)
+					os.Exit(2)
+				}
+				for ti, tv := range tracked {
+					call := strings.ReplaceAll(f[1], "{T}", tv)
+					isLit := ti < len(ldLiterals)
+					mxNow.Store(&mxCurrent{call, time.Now()})
+					st.env.LoadString("ld", "(set 'ld-result ())")
+					res, escaped := ldEval(st.env, "(set 'ld-result "+call+")")
+					calls++
+					failed := escaped != "" || res.Type == lisp.LError
+					what, before, after := st.check(false, -1)
+					if what == "" && !failed {
+						ldEval(st.env, "(ld-scramble ld-result 3)")
+						what, before, after = st.check(true, -1)
+						if what != "" {
+							what = "after the result was changed in place: " + what
+						}
+					} else if what != "" {
+						what = "changed by the call: " + what
+					}
+					mxNow.Store(nil)
+					if what != "" {
+						class := "other"
+						switch {
+						case strings.HasSuffix(what, "fingerprint"):
+							class = "fingerprint"
+						case strings.HasSuffix(what, "(lit-via-macro)"):
+							class = "macrolit"
+						case strings.Contains(what, "(lit-") || strings.HasSuffix(what, "literals"):
+							class = "literal"
+						case strings.HasSuffix(what, ": "+tv):
+							class = "target"
+						}
+						counts[class]++
+						if counts[class] <= 6 {
+							bad = append(bad, J{"class": class, "what": what, "call": call, "tracked": tv, "before": before, "after": after})
+						}
+						st, err = ldNew()
+						if err != nil {
+							fmt.Fprintln(os.Stderr, err)
+							os.Exit(2)
+						}
+					} else if !isLit {
+						for _, g := range ldGlobals {
+							st.env.LoadString("ld", fmt.Sprintf("(set '%s %s)", g[0], g[1]))
+						}
+					}
+				}
+				out.emit(J{"id": in.ID, "name": f[0], "calls": calls, "counts": counts, "bad": bad})
 				out.flush()
 			}
 		})
